@@ -257,6 +257,7 @@ func (m *metaPart) expectTestament(w *World, realm string, t mTestament, exp Exp
 				continue
 			}
 			subID, class, topic, args, kw := sub.id, sub.class, t.topic, t.args, t.kw
+			w.st.Label("testament_delivery_expected")
 			m.seq++
 			exp[idx] = append(exp[idx], expMsg{desc: fmt.Sprintf("EVENT{sub=%d testament %q}", subID, topic), optional: relaxed, match: func(x wamp.Message) bool {
 				ev, ok := x.(*wamp.Event)
